@@ -296,6 +296,34 @@ func buildVariants(c ReprCase, known map[string]bool) ([]variant, bool) {
 			}
 		}
 	}
+	// a node that says nothing may be written as null ("done:" in YAML)
+	if c.Unknown.Kind == "" {
+		doc := c.Spec.Doc(false, false)
+		ydoc := c.Spec.Doc(true, false)
+		nulls := 0
+		for _, d := range []map[string]interface{}{doc, ydoc} {
+			nodes, _ := d["nodes"].(map[string]interface{})
+			for name, n := range nodes {
+				if m, is := n.(map[string]interface{}); is && len(m) == 0 {
+					nodes[name] = nil
+					nulls++
+				}
+			}
+		}
+		if nulls > 0 {
+			dj, _ := json.Marshal(doc)
+			l, lerr := loadJSON(dj)
+			add("json-doc-null-nodes", l, lerr)
+			dy, _ := json.Marshal(ydoc)
+			var generic interface{}
+			if yaml.Unmarshal(dy, &generic) == nil {
+				if block, err := yaml.Marshal(generic); err == nil {
+					l, lerr = loadYAML(block)
+					add("yaml-doc-null-nodes", l, lerr)
+				}
+			}
+		}
+	}
 	// JSON pattern syntax
 	s, _ = base()
 	if c.Unknown.Kind != "syntax" && c.Unknown.Kind != "malformedPattern" {
@@ -509,6 +537,11 @@ func checkRepr(c ReprCase) (v ev.Verdict) {
 		}
 	}
 	v.Class(fmt.Sprintf("variants:%d", len(vs)))
+	for _, x := range vs {
+		if x.name == "json-doc-null-nodes" {
+			v.Class("null-node-variants")
+		}
+	}
 	if hasBareString(c.Spec) {
 		v.Class("bare-string-pattern")
 	}
